@@ -322,3 +322,125 @@ class AfterWrite(Contract):
             ("returns-packed-size-and-crc", bool(isinstance(result, tuple) and len(result) == 2 and result[0] is b["foutsize"] and result[1] is b["crc"])),
             ("nothing-else-modified", bool(len(apps) == len(a_dd) + len(a_crc) + len(a_sz) and len(sets) == len(s_sz) + len(s_n))),
         ]
+
+
+# ====================================================================================== SevenZipCompressor.unpacksizes
+@contract
+class CompressorUnpackSizes(Contract):
+    """one unpack size per CODER of the folder, last coder first: coder i gets the size fed to the chain element that
+    implements it; two consecutive coders that are both handled by the native lzma chain share one element.  Verified
+    for coder lists of length 1..4 (4 is the format's maximum, docs/archive_format.rst 'Coders Information')."""
+
+    target = "py7zr.compressor:SevenZipCompressor.unpacksizes"
+    props = ("C07", "C01")
+    unroll_limit = 8
+
+    def setup(self, c):
+        n = c.choice(4) + 1
+        mm = [c.bool("native%d" % k) for k in range(n)]
+        self_ = c.obj("SevenZipCompressor", "py7zr.compressor", methods_map=c.list_of(mm), _unpacksizes=c.int_list("chain_sizes"), coders=c.list_of([0] * n))
+        return {"self_": self_, "_mm": mm}
+
+    def call_args(self, bound):
+        return [bound["self_"]], {}
+
+    def requires(self, c, self_, _mm):
+        ups = c.f(self_, "_unpacksizes")
+        merged = 0
+        for k in range(1, len(_mm)):
+            merged = merged + ite(And(_mm[k], _mm[k - 1]), 1, 0)
+        return [("one-size-per-chain-element", L(ups) == len(_mm) - merged)]
+
+    def fresh_result(self, c, **b):
+        return c.int_list("sizes")
+
+    def ensures(self, c, old, result, self_, _mm):
+        ups = c.f(self_, "_unpacksizes")
+        r = c.view(result)
+        n = len(_mm)
+        out = [("one-size-per-coder", L(r) == n)]
+        shift = 0
+        for i in range(n):
+            if i >= 1:
+                shift = shift + ite(And(_mm[i], _mm[i - 1]), 1, 0)
+            out.append(("coder-%d-gets-its-chain-element's-size" % i, nth(r, n - 1 - i) == nth(ups, i - shift)))
+        return out
+
+
+# ===================================================================================================== UnpackInfo.write
+@contract
+class UnpackInfoWrite(Contract):
+    """UnpackInfo as py7zr writes it (and as its own reader and the format accept it): id 0x07, Folder id 0x0B, NUMBER
+    folder count, external = 0, every folder's coder description once and in order, id 0x0C, every coder unpack size of
+    every folder in order, END - and nothing else (in particular no UnpackDigests record: single-stream folder CRCs are
+    carried by SubStreamsInfo, which would otherwise list them twice)"""
+
+    target = "py7zr.archiveinfo:UnpackInfo.write"
+    props = ("C08", "C07")
+    abstract = True
+    assert_mode = "raise"
+    opaque = ("archiveinfo:write_uint64", "archiveinfo:write_byte", "archiveinfo:write_bytes", "archiveinfo:write_boolean", "archiveinfo:write_crcs", "archiveinfo:write_uint32", "archiveinfo:Folder.write")
+    stable_attrs = ("folders", "numfolders", "unpacksizes")
+    noraise = ("len",)
+    frame_preserving = ("write", "write_uint64", "write_byte", "write_bytes", "write_boolean", "write_crcs", "write_uint32", "len")
+
+    def setup(self, c):
+        return {"self_": c.opq("self"), "file": c.opq("file")}
+
+    def raises(self):
+        return [RaiseSpec("Exception")]
+
+    @staticmethod
+    def _writes(evs):
+        return [e for e in evs if e.kind == "call" and e.name.split(":")[-1].split(".")[-1] in ("write", "write_uint64", "write_byte", "write_bytes", "write_boolean", "write_crcs", "write_uint32", "write_real_uint64")]
+
+    def ensures(self, c, old, result, **b):
+        eng = c.eng
+        if eng.ctx_mode == "assume":
+            return []
+        me, file = b["self_"], b["file"]
+        w = self._writes(eng.trace)
+        shape = [(e.name.split(":")[-1].split(".")[-1], e) for e in w]
+        names = [n for n, _ in shape]
+        ok_names = names == ["write", "write", "write_uint64", "write_byte", "write_byte", "write_byte"]
+        out = [("exactly-the-section-skeleton-outside-the-loops", bool(ok_names))]
+        if ok_names:
+            ev = [e for _, e in shape]
+            raw = lambda e: e.args[0] if e.recv is not None and e.recv is file else (e.args[1] if len(e.args) > 1 else None)
+            out += [
+                ("section-id", bool(ev[0].recv is file and ev[0].args[0] == b"\x07")),
+                ("folder-id", bool(ev[1].recv is file and ev[1].args[0] == b"\x0b")),
+                ("folder-count-written", eq(ev[2].args[1], attr(me, "numfolders")) if V.is_sym(ev[2].args[1]) else False),
+                ("folders-inline", bool(ev[3].args[1] == b"\x00")),
+                ("unpack-size-id", bool(ev[4].args[1] == b"\x0c")),
+                ("end-marker-last", bool(ev[5].args[1] == b"\x00" and eng.trace.index(ev[5]) == max(eng.trace.index(e) for e in w))),
+                ("all-into-the-same-stream", bool(all((e.recv is file) or (e.args and e.args[0] is file) for e in ev))),
+            ]
+        return out
+
+    def loops(self):
+        def noinv(c, Lp):
+            return []
+
+        def one_folder(c, Lp):
+            w = self._writes(c.eng.trace[Lp.trace_mark:])
+            el = Lp.element(Lp.i)
+            ok = len(w) == 1 and w[0].name.endswith("write") and w[0].recv is not None and w[0].args and w[0].args[0] is c.bound["file"]
+            return [("each-folder-described-once", eq(w[0].recv, el) if ok else False)]
+
+        def one_size(c, Lp):
+            w = self._writes(c.eng.trace[Lp.trace_mark:])
+            el = Lp.element(Lp.i)
+            ok = len(w) == 1 and w[0].name.endswith("write_uint64") and w[0].args[0] is c.bound["file"]
+            return [("each-unpack-size-written-once", eq(w[0].args[1], el) if ok else False)]
+
+        def sizes_of_folder(c, Lp):
+            # the inner loop is summarised: nothing else may be written in this iteration
+            w = self._writes(c.eng.trace[Lp.trace_mark:])
+            return [("only-sizes-between-the-markers", bool(len(w) == 0))]
+
+        return {
+            "archiveinfo:UnpackInfo.write#loop0": LoopSpec("for-folder", noinv, target="folder in self.folders", asserts=one_folder),
+            "archiveinfo:UnpackInfo.write#loop1": LoopSpec("for-folder-sizes", noinv, target="folder in self.folders", asserts=sizes_of_folder),
+            "archiveinfo:UnpackInfo.write#loop2": LoopSpec("for-s", noinv, target="s in folder.unpacksizes", asserts=one_size),
+        }
